@@ -26,7 +26,7 @@ import (
 
 var r *mon.Run
 
-var evals, flips, flipsCovered, flipsDetectedByError, flipsDetectedByHash, flipsPanic, flipsUncovered atomic.Int64
+var evals, cutShort, flips, flipsCovered, flipsDetectedByError, flipsDetectedByHash, flipsPanic, flipsUncovered atomic.Int64
 
 func ev(n int) { evals.Add(int64(n)) }
 
@@ -676,6 +676,7 @@ func main() {
 	wg.Wait()
 	r.Eval(int(evals.Load()))
 	r.Count("tamper_flips", int(flips.Load()))
+	r.Count("cut_short_blobs_parsed_into_used_targets", int(cutShort.Load()))
 	r.Count("tamper_flips_in_covered_region", int(flipsCovered.Load()))
 	r.Count("tamper_detected_by_error", int(flipsDetectedByError.Load()))
 	r.Count("tamper_detected_by_hash", int(flipsDetectedByHash.Load()))
